@@ -12,7 +12,7 @@ LEVEL_TEXT = (
     "definition tables are filled in a fixed (sorted) file order and never overwrite; no report text can print an SSA version"
     " (call-graph reachability over the type-checked program from every report-producing function to the version printer, log"
     " macros excluded, with a positive control); no report is selected first-wins inside a loop; the per-definition CFG cache is"
-    " taken and put back around each analysis; a failing file does not stop the others; the merging loops have no early exit; desugaring resolves against the table it was given; no process-wide state."
+    " taken and put back around each analysis; a failing file does not stop the others; the merging loops have no early exit; desugaring resolves against the table it was given; no process-wide state.; the library constructor evaluated on file maps with gaps in three orders; no element is chosen from a hash-ordered iteration outside two reviewed sites (type-resolved ledger); phi placement does not depend on the order of a written-variable set."
 )
 NOT_DECIDED = "order-independence of every analysis result (that each pass computes the same set whatever the iteration order of its internal hash maps)."
 TRUSTED = ["rustc MIR and trait resolution (engines/mirfacts)", "syn parser", "formatting edges: Argument::new_debug/new_display::<T> stands for a call of <T as Debug/Display>::fmt"]
@@ -327,6 +327,12 @@ def rule_every_file_merged(ctx, R="C17.10"):
 def rule_cache(ctx):
     R = "C17.3"
     ctx.rule(R, "the per-definition CFG cache is keyed by the definition name; a CFG taken for an analysis is put back (if at all) under the same key and only on success")
+    import c03run
+
+    if c03run.rule_cache(ctx, R):
+        # decided by evaluating the runner: after the analysis the cache holds each lifted definition's own graph under
+        # its own name; the shape obligations below are the fallback
+        return
     for kind in ("template", "function"):
         fn = find_fn(RUN, "analyze_" + kind)
         if fn is None:
